@@ -1,4 +1,5 @@
 import IkeProofs.Refine.Transfer
+import IkeProofs.RefineEap.Glue
 import IkeProofs.Theorems.C12
 import IkeProofs.Theorems.C12Canonical
 
@@ -33,5 +34,25 @@ theorem C12_gen_canonical_datagram (bs : Bytes) (m : Msg) (hd : m.Dom) (hp : Spe
     ∃ m' h', genDecode bs = .ok (some m') ∧ genEncode m' = .ok (bs, h') := by
   obtain ⟨m', h', k, e⟩ := C12_canonical_datagram bs m hd hp
   exact ⟨m', h', genDecode_ok.mpr k, by rw [genEncode_eq]; exact e⟩
+
+end Ike
+
+/-! ### EAP packets (package `eap` as translated) -/
+
+namespace Ike
+open Ike.RefineEap
+
+/-- decode, encode, decode with the generated EAP functions: the second decode returns the packet of the first -/
+theorem C12_gen_eap_stable (bs bs' : Bytes) (g : Gen.eap.EAP)
+    (hd : Gen.eap.EAP.Unmarshal {} bs = .ok g) (he : Gen.eap.EAP.Marshal g = .ok bs') :
+    (Gen.eap.EAP.Unmarshal {} bs').map GenAbs.absEap = .ok (GenAbs.absEap g) := by
+  have hwf := Gen_EAP_Unmarshal_wf bs g hd
+  have h1 : unmarshalEap bs = .ok (GenAbs.absEap g) := by
+    have := Gen_EAP_Unmarshal bs
+    rw [hd] at this
+    exact this.symm
+  rw [Gen_EAP_Marshal g hwf] at he
+  rw [Gen_EAP_Unmarshal]
+  exact C12_eap_stable bs bs' (GenAbs.absEap g) h1 he
 
 end Ike
